@@ -16066,6 +16066,9 @@ R_<TG_, TA_>::load(ReadStream& stream) noexcept {
 	_core.registry.compoResumable.clear();
 	_apex.deepLoadRequested(_core.registry, stream);
 
+	// the exits performed below would overwrite the resumable marks just loaded
+	const auto loadedResumable = _core.registry.compoResumable;
+
 	_core.requests.clear();
 	// TODO: load(stream, _core.requests);
 
@@ -16091,6 +16094,8 @@ R_<TG_, TA_>::load(ReadStream& stream) noexcept {
 	PlanControl control{_core, emptyTransitions};
 
 	_apex.deepChangeToRequested(control);
+
+	_core.registry.compoResumable = loadedResumable;
 
 	HFSM2_IF_STRUCTURE_REPORT(udpateActivity());
 }
@@ -16682,6 +16687,8 @@ RV_<G_<NFT_, TC_, Manual, TRO_ HFSM2_IF_UTILITY_THEORY(, TR_, TU_, TG_), NSL_ HF
 	HFSM2_ASSERT(_core.registry.empty());
 	_apex.deepLoadRequested(_core.registry, stream);
 
+	const auto loadedResumable = _core.registry.compoResumable;
+
 	HFSM2_ASSERT(_core.requests.empty());
 
 #if HFSM2_PLANS_AVAILABLE()
@@ -16701,6 +16708,8 @@ RV_<G_<NFT_, TC_, Manual, TRO_ HFSM2_IF_UTILITY_THEORY(, TR_, TU_, TG_), NSL_ HF
 	PlanControl control{_core, emptyTransitions};
 
 	_apex.deepEnter(control);
+
+	_core.registry.compoResumable = loadedResumable;
 
 	HFSM2_IF_STRUCTURE_REPORT(udpateActivity());
 }
